@@ -25,6 +25,8 @@ var c19Extras = []struct{ name, text string }{
 	{"nested-blocks-and-tail", "fn main() {\n    let v = { let a = 1; { let b = 2; a + b } };\n    println(v);\n    { println(\"inner\"); }\n}\n"},
 	{"object-keys-strings", "fn main() {\n    let o = new { \"key one\": 1, plain: 2 };\n    println(o.plain);\n}\n"},
 	{"object-keys-empty-and-odd", "type T = { \"\": int, \"a b\": int, \"1x\": int, \"é\": int, \"a-b\": int, \"_\": int };\nfn main() {\n    let o: T = new { \"\": 1, \"a b\": 2, \"1x\": 3, \"é\": 4, \"a-b\": 5, \"_\": 6 };\n    println(o);\n}\n"},
+	{"match-whose-arms-all-diverge-without-default", "fn pick(n: int) -> int {\n    match n { 1 => { return 10; }, 2 => { return 20; } };\n    println(\"fell through\", n);\n    0\n}\nfn stop(n: int) {\n    match n { 1 => { return; }, 2 => { throw(\"two\"); } };\n    println(\"after match\", n);\n}\nfn main() {\n    println(pick(1), pick(2), pick(3));\n    stop(1);\n    stop(3);\n    for i in 0..4 {\n        match i { 0 => { continue; }, 1 => { continue; } };\n        println(\"loop body\", i);\n        if i == 2 { match i { 2 => { break; } }; println(\"not here\"); }\n    }\n    println(\"end\");\n}\n"},
+	{"if-without-else-whose-branch-diverges", "fn f(n: int) -> int {\n    if n > 1 { return 1; };\n    println(\"small\", n);\n    if n > 5 { throw(\"big\"); } else if n > 4 { return 4; };\n    0\n}\nfn main() {\n    println(f(0), f(2));\n}\n"},
 	{"object-keys-keywords", "fn main() {\n    let o = new { \"fn\": 1, \"let\": 2, \"if\": 3, \"type\": 4, \"true\": 5, \"null\": 6, \"none\": 7, \"new\": 8, \"in\": 9, \"as\": 10 };\n    println(o);\n}\n"},
 	{"types-complex", "type A = { l: [int], o: ?str, n: { x: float } };\nfn mk() -> A { new { l: [1], o: ?\"s\", n: new { x: 1.5 } } }\nfn main() { let a = mk(); println(a.l, a.o, a.n.x); }\n"},
 	{"negative-and-grouping", "fn main() {\n    println(-(1 + 2) * 3, (1 + 2) * 3, 1 + 2 * 3, -2 ** 2, (-2) ** 2, 2 ** 3 ** 2, 10 - 3 - 2, 10 - (3 - 2), !(true && false) || false);\n}\n"},
